@@ -123,7 +123,7 @@ func wrapAttacks(c *vf.Ctx, x *chain.Explorer, w *chain.World, path []string) {
 		t.Signatures = sigs
 		w.FillV1Signatures(t)
 	}
-	classes, maxN := []int{chain.AddrV1, chain.AddrNoSig, chain.AddrV2, chain.AddrACS}, 2
+	classes, maxN := []int{chain.AddrNoSig, chain.AddrV2}, 2
 	if !c.Quick() {
 		classes, maxN = []int{chain.AddrV1, chain.AddrV1b, chain.AddrNoSig, chain.AddrFnd, chain.AddrV2, chain.AddrACS}, 3
 	}
@@ -177,8 +177,8 @@ func wrapAttacks(c *vf.Ctx, x *chain.Explorer, w *chain.World, path []string) {
 		}
 	}
 	// an output created earlier in the block, spent under a LARGER claimed value (from the ephemeral-output height on the
-	// claimed value must be the created one; below it the legacy rule does not check it - not asserted there)
-	if v2ok && h >= w.Net.HardforkV2.EphemeralOutputHeight {
+	// claimed value must be the created one; below it the legacy rule does not check it - a recorded known finding)
+	if v2ok {
 		if p, ok := bc.PickSC(func(cl int) bool { return cl == chain.AddrV2 || cl == chain.AddrV1 }, types.Siacoins(5)); ok {
 			u1 := w.UseV2SC(p, 5)
 			for i, extra := range []types.Currency{one, types.Siacoins(1000000), top} {
@@ -196,6 +196,8 @@ func wrapAttacks(c *vf.Ctx, x *chain.Explorer, w *chain.World, path []string) {
 				switch {
 				case pv != nil:
 					x.Violate("wraparound|panic|"+name, fmt.Sprintf("ValidateBlock panicked (%s) at height %d: %v", name, h, pv), path)
+				case err == nil && h < w.Net.HardforkV2.EphemeralOutputHeight:
+					x.Violate("inflated-in-block-parent|accepted|below the ephemeral-output height (legacy rule)", fmt.Sprintf("a v2 transaction spent an output created earlier in the block under a value larger than the one created (%s) and the block was ACCEPTED at height %d (below the ephemeral-output height %d the claimed parent is not compared with the created one): value created from nothing", name, h, w.Net.HardforkV2.EphemeralOutputHeight), append(append([]string(nil), path...), "attack:wrap:"+name))
 				case err == nil:
 					x.Violate("inflated-in-block-parent|accepted", fmt.Sprintf("a v2 transaction spent an output created earlier in the block under a value larger than the one created (%s) and the block was ACCEPTED at height %d: value created from nothing", name, h), append(append([]string(nil), path...), "attack:wrap:"+name))
 				default:
